@@ -1009,7 +1009,8 @@ func ruleEntryIterator(r *Run, want *types.Signature) {
 		}
 	}
 	if pre == nil || pipe == nil || setFrom == nil {
-		o.Fail(r.pos(fn.Pos()), "prefilter/pipeline Process call or SetFromRecord call missing (prefilter=%v pipeline=%v SetFromRecord=%v)", pre != nil, pipe != nil, setFrom != nil)
+		// the per-record work lives (partly) in helpers of Next: decide the same claims on paths
+		ruleEntryIteratorPaths(r, o, fn, want)
 		return
 	}
 	good := true
@@ -1089,5 +1090,143 @@ func ruleEntryIterator(r *Run, want *types.Signature) {
 	}
 	if good {
 		o.OK("SetFromRecord -> prefilter(record.Body) -> pipeline(prefilter line); true only under both keeps with ts=record.Timestamp, line=pipeline line").At(r.pos(fn.Pos()))
+	}
+}
+
+// ruleEntryIteratorPaths decides the entryIterator.Next claims path by path, following the
+// helpers of Next (used when the three steps are not all in Next's own body).
+func ruleEntryIteratorPaths(r *Run, o *Obligation, fn *ssa.Function, want *types.Signature) {
+	grp := funcGroup(fn)
+	var pre, pipe *ssa.Call
+	var setFrom ssa.CallInstruction
+	for _, gf := range grp {
+		for _, c := range callsIn(gf) {
+			if call, ok := c.(*ssa.Call); ok && isProcessCall(call, want) {
+				f, base, ok := loadOfField(call.Call.Value)
+				if ok && originValueIn(base, grp) == ssa.Value(fn.Params[0]) {
+					switch f {
+					case "prefilter":
+						pre = call
+					case "pipeline":
+						pipe = call
+					}
+				}
+			}
+			if callIs(c, modPath+"/"+enginePkg, "(*LabelSet).SetFromRecord") {
+				setFrom = c
+			}
+		}
+	}
+	if pre == nil || pipe == nil || setFrom == nil {
+		o.Fail(r.pos(fn.Pos()), "prefilter/pipeline Process call or SetFromRecord call missing (prefilter=%v pipeline=%v SetFromRecord=%v)", pre != nil, pipe != nil, setFrom != nil)
+		return
+	}
+	good := true
+	fail := func(pos token.Pos, f string, a ...any) { good = false; o.Fail(r.pos(pos), f, a...) }
+	if f, _, ok := loadOfField(callArgs(pre)[1]); !ok || f != "Body" {
+		fail(pre.Pos(), "prefilter is applied to %s, not record.Body", describe(callArgs(pre)[1], 0))
+	}
+	w := &feWalker{Fn: fn, Inline: inlineHelpers(fn), MaxPath: 20000}
+	ends := w.Run()
+	if w.Aborted {
+		o.Undecide(r.pos(fn.Pos()), "path enumeration aborted")
+		return
+	}
+	nTrue := 0
+	for _, e := range ends {
+		seqOf := func(c ssa.CallInstruction) (int, *feCall) {
+			for i := range e.State.calls {
+				if e.State.calls[i].Call == c {
+					return e.State.calls[i].Seq, &e.State.calls[i]
+				}
+			}
+			return -1, nil
+		}
+		truth := func(v ssa.Value) (bool, bool) {
+			for _, f := range e.State.free {
+				f = normFact(f)
+				if f.Cond == v {
+					return f.Truth, true
+				}
+			}
+			return false, false
+		}
+		sSet, _ := seqOf(setFrom)
+		sPre, cPre := seqOf(pre)
+		sPipe, cPipe := seqOf(pipe)
+		kPre, okPre := truth(innerKeep(pre))
+		kPipe, okPipe := truth(innerKeep(pipe))
+		at := fn.Pos()
+		if e.Term != nil {
+			at = e.Term.Pos()
+		}
+		if sPre >= 0 && (sSet < 0 || sSet > sPre) {
+			fail(at, "the prefilter runs before SetFromRecord on a path")
+		}
+		if sPipe >= 0 {
+			if sPre < 0 || sPre > sPipe || !(okPre && kPre) {
+				fail(at, "pipeline runs although the prefilter rejected the record (or did not run)")
+			}
+			if cPipe != nil && cPre != nil {
+				pa, qa := cPipe.Args, cPre.Args
+				off := len(pa) - 3 // receiver first for static method calls
+				if off < 0 || len(qa) != len(pa) {
+					fail(at, "unexpected Process call shape")
+				} else {
+					if pa[off+1].V != innerLine(pre) {
+						fail(at, "pipeline is applied to %s, not the prefilter's line", describe(pa[off+1].V, 0))
+					}
+					if describe(pa[off].V, 0) != describe(qa[off].V, 0) || describe(pa[off+2].V, 0) != describe(qa[off+2].V, 0) {
+						fail(at, "prefilter and pipeline see different timestamp / label set")
+					}
+				}
+			}
+		}
+		ret, isRet := e.Term.(*ssa.Return)
+		if !isRet || e.Cut || len(e.Results) != 1 {
+			continue
+		}
+		res := e.Results[0]
+		switch {
+		case res.Known && constant.BoolVal(res.C):
+			nTrue++
+			if !(okPre && kPre && okPipe && kPipe) {
+				fail(ret.Pos(), "an entry is emitted without both prefilter and pipeline having kept it")
+			}
+			var tsOK, lineOK bool
+			for _, st := range e.State.stores {
+				n, base, ok := fieldNameOf(st.Store.Addr)
+				if !ok || unspill(w.evalVal(e.State, base).V) != ssa.Value(fn.Params[1]) {
+					continue
+				}
+				switch n {
+				case "ts":
+					f, _, ok := loadOfField(originValue(st.Val.V))
+					tsOK = ok && f == "Timestamp"
+				case "line":
+					lineOK = st.Val.V == innerLine(pipe)
+				}
+			}
+			if !tsOK {
+				fail(ret.Pos(), "emitted entry's ts is not record.Timestamp")
+			}
+			if !lineOK {
+				fail(ret.Pos(), "emitted entry's line is not the pipeline's line")
+			}
+		case res.Known && !constant.BoolVal(res.C):
+			if (okPre && !kPre) || (okPipe && !kPipe) {
+				fail(ret.Pos(), "iteration ends (returns false) on a rejected record instead of skipping it")
+			} else if sPre >= 0 {
+				fail(ret.Pos(), "iteration ends (returns false) after a record was read and filtered")
+			}
+		default:
+			fail(ret.Pos(), "Next returns %s", describe(res.V, 0))
+		}
+	}
+	if nTrue == 0 {
+		fail(fn.Pos(), "no path emits an entry")
+	}
+	if good {
+		o.OK("on every path through Next and its helpers: SetFromRecord -> prefilter(record.Body) -> pipeline(prefilter line); true only under both keeps with ts=record.Timestamp, line=pipeline line").At(r.pos(fn.Pos()))
 	}
 }
